@@ -75,6 +75,34 @@ fn decode(ctl: &[u8]) -> Graph {
             }
         }
     }
+    // a planted shape: a constant reaches a group of mutually recursive functions, and the context is
+    // read by (or behind) a member of the group other than the one the constant enters through
+    if n_fns >= 3 && c.chance(45) {
+        let fns: Vec<usize> = (n_consts..n).collect();
+        let a = fns[c.below(fns.len())];
+        let b = *fns.iter().filter(|x| **x != a).nth(c.below(fns.len() - 1)).unwrap();
+        let z = *fns.iter().filter(|x| **x != a && **x != b).nth(c.below(fns.len() - 2)).unwrap();
+        let k = c.below(n_consts);
+        let mut add = |items: &mut Vec<Item>, from: usize, to: usize, form: u8| {
+            if !items[from].refs.iter().any(|(x, _)| *x == to) {
+                items[from].refs.push((to, form));
+            }
+        };
+        let f1 = c.below(7) as u8;
+        add(&mut items, a, b, f1);
+        add(&mut items, b, a, 0);
+        let reader = if c.chance(128) { a } else { b };
+        if c.chance(170) {
+            add(&mut items, reader, z, 0);
+            items[z].uses_context = true;
+            items[z].ctx_form = c.below(5) as u8;
+        } else {
+            items[reader].uses_context = true;
+            items[reader].ctx_form = c.below(5) as u8;
+        }
+        let entry = if c.chance(128) { a } else { b };
+        add(&mut items, k, entry, c.below(7) as u8);
+    }
     for it in items.iter_mut() {
         if it.is_const {
             it.const_kind = match c.below(8) {
@@ -387,6 +415,13 @@ impl WorkerState for W {
                             return fail("evaluated-before-rejecting", format!("constants {tags:?} were evaluated although compilation failed"));
                         }
                         o.classes.push("rejected-cycle-or-context".into());
+                        // the context is read inside or behind a group of mutually recursive functions
+                        let ctx_behind_cycle = (0..g.items.len()).any(|i| {
+                            g.items[i].is_const && reach(&g, i).iter().any(|f| !g.items[*f].is_const && reach(&g, *f).contains(f) && (g.items[*f].uses_context || reach(&g, *f).iter().any(|z| g.items[*z].uses_context)))
+                        });
+                        if ctx_behind_cycle {
+                            o.classes.push("context-behind-a-function-cycle".into());
+                        }
                         o.nontrivial = true;
                     }
                     (Expect::Accept(_), Err(e)) => return fail("rejected-acyclic", host::render_report(&e)),
